@@ -31,6 +31,8 @@ let rec parse_block (toks : string list) (stop : string -> bool) : op list * str
       | 'm' -> (OTlsMem (num arg), rest)
       | 'r' -> (OTlsRem (num arg), rest)
       | 'e' -> (OEmit (num arg), rest)
+      | 'p' -> (OPub (num arg), rest)           (* p0 = new_root result, p1 = new_raw result *)
+      | 'h' -> (OAlloc true, rest)              (* h<j>: managed object rooted ONLY through the thread's TLS (key __t<j> / t<j>) *)
       | 'w' -> let (k, n) = pair arg in (OWork (k, n), rest)
       | 'o' -> (OObs, rest)
       | 'y' -> (OYield, rest)
@@ -60,6 +62,7 @@ let rec parse_block (toks : string list) (stop : string -> bool) : op list * str
         (match r1 with _ :: r2 -> (OTryOnce (m, body), r2) | [] -> failwith "unterminated try-once")
       | 'i' -> (OIncr (num arg), rest)
       | 'S' -> (OSpawn (num arg), rest)
+      | 'K' -> let (v, u) = pair arg in (OSpawnCopy (v, u), rest)      (* K<v>,<u>: thr v = copy(Thread of u); call *)
       | 'J' -> (OJoin (num arg), rest)
       | 'P' -> (OPeek (num arg), rest)
       | _ -> failwith ("bad token " ^ t) in
@@ -77,6 +80,7 @@ let oids me l =
       (if i o <> me then "!" ^ string_of_int (i o) ^ "." else "") ^ string_of_int (i s)) l) ^ "}"
 let ev_s me = function
   | EvEmit v -> "e" ^ string_of_int (i v)
+  | EvPub (k, sn) -> "p" ^ string_of_int (i k) ^ "." ^ string_of_int (i sn)
   | EvWork (k, n) -> "w" ^ string_of_int (i k) ^ "." ^ string_of_int (i n)
   | EvGet (k, v) -> "g" ^ string_of_int (i k) ^ "=" ^ string_of_int (i v)
   | EvMem (k, b) -> "m" ^ string_of_int (i k) ^ "=" ^ (if b then "1" else "0")
@@ -106,41 +110,58 @@ let () =
           let cells = Array.make (max nm 1) 0 in
           (* how often every Thread object is called: the number of S<u> anywhere (at least one run) *)
           let rec spawns (p : op list) = List.concat_map (function
-              | OSpawn u -> [i u] | OTry (b, _, h) -> spawns b @ spawns h | OWith (_, b) -> spawns b
+              | OSpawn u -> [i u] | OSpawnCopy (v, _) -> [i v] | OTry (b, _, h) -> spawns b @ spawns h | OWith (_, b) -> spawns b
               | OTryOnce (_, b) -> spawns b | _ -> []) p in
           let all_spawns = List.concat_map spawns progs in
           let rounds t = max 1 (List.length (List.filter (fun u -> u = t) all_spawns)) in
           (* after_run.(t) = the thread's whole trace after its 1st, 2nd, ... run (newest first) *)
           let after_run = Array.make n [] in
-          let finals = List.mapi (fun t p ->
-              let l = ref (th_linit (nat_of_int t) p) in
+          (* a Thread object made by copy() starts with a snapshot of the source's TLS: of the copying thread itself at
+             that instruction, or the final TLS of a finished source (threads are simulated on demand, memoised) *)
+          let snap = Array.make n [] in
+          let memo = Array.make n None in
+          let progs_a = Array.of_list progs in
+          let rec final t =
+            match memo.(t) with
+            | Some l -> l
+            | None ->
+              let p = progs_a.(t) in
+              let l = ref (set_tls (th_linit (nat_of_int t) p) snap.(t)) in
               for r = 1 to rounds t do
                 if r > 1 then l := restart !l p;
                 let fuel = ref 100000 in
                 while not (!l).done0 && not (!l).fatal && !fuel > 0 do
                   (match head_store !l with Some m when m < nm -> cells.(m) <- cells.(m) + 1 | _ -> ());
+                  (match (!l).code with
+                   | KOp (OSpawnCopy (v, u)) :: _ when i v < n && i u < n ->
+                     snap.(i v) <- (if i u = t then (!l).tls else (final (i u)).tls)
+                   | _ -> ());
                   l := th_lstep true !l; decr fuel
                 done;
                 after_run.(t) <- (!l).out :: after_run.(t)
               done;
-              !l) progs in
+              memo.(t) <- Some !l;
+              !l in
+          let finals = List.mapi (fun t _ -> final t) progs in
           Buffer.add_string buf (String.concat " / " (List.mapi (fun t l ->
               Printf.sprintf "t%d:%s" t (trace_s t l.out)) finals));
           Buffer.add_string buf " # ";
           Buffer.add_string buf (String.concat "," (List.init nm (fun m -> Printf.sprintf "c%d=%d" m cells.(m))));
           Buffer.add_string buf " # ";
           (* what a peek must read: the peeked thread's trace through its latest run called by the peeker so far *)
+          let rec flat (p : op list) = List.concat_map (function
+              | OTry (b, _, _) -> flat b | OWith (_, b) -> flat b | o -> [o]) p in
           let peek_items t (p : op list) =
             let called = Hashtbl.create 8 in
             List.concat_map (function
-              | OSpawn u -> Hashtbl.replace called (i u) (1 + (try Hashtbl.find called (i u) with Not_found -> 0)); []
+              | OSpawn u | OSpawnCopy (u, _) -> Hashtbl.replace called (i u) (1 + (try Hashtbl.find called (i u) with Not_found -> 0)); []
               | OPeek u ->
                 let u = i u in
                 let r = (try Hashtbl.find called u with Not_found -> 0) in
                 let tr = if u < n && r >= 1 && r <= List.length after_run.(u)
                   then trace_s u (List.nth (List.rev after_run.(u)) (r - 1)) else "?" in
                 [Printf.sprintf "%d:P%d=[%s]" t u tr]
-              | _ -> []) p in
+              | _ -> []) (flat p) in
           Buffer.add_string buf (String.concat ";" (List.concat (List.mapi peek_items progs)));
           Buffer.add_string buf " # ";
           (* contract check: the machine under the case's schedule must terminate cleanly (no abort, no
